@@ -1,7 +1,7 @@
 (* Properties_C06: statements only.  C06 -- PUSH/PULL: each message to at most
    one puller, none lost while connected; back-pressure. *)
 From Coq Require Import List Arith NArith Bool.
-From NngV Require Import Proto.Common Proto.PushModel Proto.PullModel Proto.PushProofs Proto.PullProofs Proto.PipelineProofs.
+From NngV Require Import Gen.Consts Proto.Common Proto.PushModel Proto.PushGuard Proto.PullModel Proto.PushProofs Proto.PullProofs Proto.PipelineProofs.
 Import ListNotations.
 
 (* one step of the pusher (= one critical section of push.c), under the
@@ -94,6 +94,28 @@ Print Assumptions pushpull_conservation.
 Theorem pushpull_init_invariants : (PInv push_init /\ WInv push_init) /\ LInvP pull_init.
 Proof. split; [exact push_init_inv|exact pull_init_inv]. Qed.
 Print Assumptions pushpull_init_invariants.
+
+(* push.c as it is now (fix 8475361): the model run against the code is PushGuard.push0_step =
+   push_step with the closed-pipe guard; outside the successful send completion of a closed pipe
+   it IS push_step, so every theorem above is about the code as it is *)
+Theorem push_guard_is_push_step : forall fc g o, stale_done g o = false ->
+  pg_s (fst (push_step_g fc g o)) = fst (push_step (pg_s g) o) /\ snd (push_step_g fc g o) = snd (push_step (pg_s g) o).
+Proof. intros fc g o H. exact (proj2 (PushGuard_contract fc g o H)). Qed.
+Print Assumptions push_guard_is_push_step.
+(* a pipe whose pipe_close has run is never on the ready list again (so no message is handed to
+   a pipe that is being destroyed), over every history in which pipe ids are not reused *)
+Theorem push_closed_pipe_never_ready : forall ops g, CInv g -> fresh_all true g ops -> CInv (push_run_g true g ops).
+Proof. exact push_closed_never_ready. Qed.
+Print Assumptions push_closed_pipe_never_ready.
+Theorem push_closed_pipe_ready_pinned_refuted :
+  let g := push_run_g false pushg_init push_stale_witness in
+  fresh_all false pushg_init push_stale_witness /\ In 1%N (pg_closed g) /\ In 1%N (ps_pl (pg_s g)) /\
+  exists g' rest, push_step_g false g (PSend None 2%N true (mkPmsg [] [2%N])) = (g', Complete 2%N E_OK None :: TranSend 1%N (mkPmsg [] [2%N]) :: rest).
+Proof. exact push_closed_pipe_ready_refuted. Qed.
+Print Assumptions push_closed_pipe_ready_pinned_refuted.
+Theorem push_current_source_guarded : C06_PUSH_CLOSED_GUARD_FIXED = true /\ push0_step = push_step_g true.
+Proof. split; reflexivity. Qed.
+Print Assumptions push_current_source_guarded.
 
 (* non-vacuity: a concrete well-formed history moves a message end to end *)
 Example push_history_nonvacuous :
